@@ -144,6 +144,13 @@ theorem reconfigure_eq (ext : Ext) (m : Mw) (cfg : Option Config) :
 /-- `(*Middleware).SetDebug` as translated = `Mw.setDebug`. -/
 theorem setDebug_eq (m : Mw) (b : Bool) : Gen.GoSrc.setDebug m b = Mw.setDebug m b := rfl
 
+/-- The whole closure of `Wrap` on the model's state (snapshot, passthrough branch, dispatch) = `Mw.serve`. -/
+theorem serveMw_eq (m : Mw) (r : Req) (pre : HdrMap) : Gen.GoSrc.serveMw m r pre = Mw.serve m r pre := by
+  unfold Gen.GoSrc.serveMw Mw.serve
+  cases m.icfg with
+  | none => rfl
+  | some icfg => exact serveClosure_eq icfg m.debug r pre
+
 /-- The four decision steps of the preflight pipeline, as translated from the working tree, are the modelled ones. -/
 theorem pipeline_eq (icfg : ICfg) (buf : Buf) (reqHdrs : HdrMap) (origin acrm : Bytes) (debug : Bool) :
     Gen.GoSrc.processOriginForPreflight icfg buf origin [origin] = GoRt.result buf (Serve.processOriginForPreflight (modelDec icfg) icfg buf origin) ∧
